@@ -4,7 +4,7 @@
    pipeline, order across batches, watermarks accepted by a Temporal receiver) are an executable monitor
    applied to every implementation trace and tied to the model by the correspondence. *)
 From Coq Require Import List ZArith Bool.
-From S2S Require Import Routing.Model Routing.Basic Routing.Delivery Routing.Inv.
+From S2S Require Import Routing.Model Routing.Basic Routing.Delivery Routing.Inv Routing.Place.
 Import ListNotations.
 Open Scope Z_scope.
 
@@ -63,3 +63,15 @@ Proof.
   intros ns nt l Hwf x sr r T s Hr Hs. pose proof (inv_run l _ (inv_init ns nt) Hwf) as HI. apply (i_before _ HI sr r T s Hr Hs).
 Qed.
 Print Assumptions C02_owner_stream_in_source_order.
+
+(* EXACT placement (exactly once, to the owner only, in order): in every reachable state of every fault-free execution,
+   for every source sr and target T, the ids of sr's tasks in what has been handed to T's sender (its id table followed
+   by its channel), followed by the ids still pending for T in the receiver, are exactly - as a list, so with
+   multiplicity and order - the ids of the tasks received from sr that T owns. *)
+Theorem C02_exact_placement : forall ns nt l,
+  wf_run (init ns nt) l ->
+  let x := fst (run_acts true (init ns nt) l) in
+  forall sr r T s, recv_at x sr r -> send_at x T s ->
+    tasks_of sr (L s) ++ map t_id (pend r T) = map t_id (owned_by T (r_rcv r)).
+Proof. intros ns nt l Hwf. apply (place_run l _ (inv_init ns nt) (place_init ns nt) Hwf). Qed.
+Print Assumptions C02_exact_placement.
